@@ -473,6 +473,18 @@ def _enrich(rng, d):
             t = rng.choice(ints)
             t['ctx'] = [[[['MODE', '==', str(m), rng.choice([True, False])]], ['poly', [[float(m), 0], [2.0, 1]]]]
                         for m in range(rng.randint(1, 3))]
+    if rng.random() < 0.5:
+        # lengths looked up from criteria, entries with one comparison and with a LIST of comparisons
+        lookups = [[[['MODE', '==', str(m), True]] + ([['VERSION', '>=', '0', True]] if m % 2 else []), 8 * (m + 1)]
+                   for m in range(3)]
+        kind = rng.choice(['bin2', 'str2'])
+        t = {'name': 'LKP_T', 'kind': kind, 'lookups': lookups}
+        if kind == 'str2':
+            t['encoding'] = 'US-ASCII'
+        d['ptypes'].append(t)
+        d['params'].append({'name': 'LKP', 'type': 'LKP_T'})
+        kids = [c for c in conts if c['base'] == 'CCSDSPacket']
+        rng.choice(kids)['entries'].append('LKP')
     for c in conts:
         if rng.random() < 0.2:
             c['long_description'] = f"container {c['name']}"
@@ -596,7 +608,7 @@ CONTRACTS += [
 # =====================================================================================================================
 # write / load round trips (C09, C15): bounded only
 # =====================================================================================================================
-def _enrich_rt(rng, d, objects_only=False):
+def _enrich_rt(rng, d, objects_only=False, time_case=None):
     """features that matter for serialisation: adjustments with slope 1 / non-zero intercept, zero-size binaries,
     lookup lists, units, descriptions, UTF-16 strings with explicit byte order, time types"""
     d = _enrich(rng, d)
@@ -606,7 +618,12 @@ def _enrich_rt(rng, d, objects_only=False):
         if t['kind'] in ('bin', 'str') and t.get('adj'):
             t['adj'] = rng.choice([[8, 0], [1, 0], [1, 8], [8, 16], [2, 4]])
     d['date'] = '2024-01-01T00:00:00'
-    d['space_system_name'] = 'VERIF'
+    d['space_system_name'] = rng.choice(['VERIF', 'VERIF', None])
+    # calibrator break points and coefficients that need more than six significant digits
+    for t in d['ptypes']:
+        if t['kind'] == 'int' and t.get('default') and rng.random() < 0.5:
+            t['default'] = rng.choice([['spline', [[0.0, 26.853125], [1048577.0, 1234567.875]], rng.choice([0, 1]), True],
+                                       ['poly', [[0.123456789, 0], [1048577.25, 1]]]])
     if objects_only:
         extra = []
         lookups = [[[['MODE', '==', str(m), True]], 8 * (m + 1)] for m in range(3)]
@@ -625,6 +642,11 @@ def _enrich_rt(rng, d, objects_only=False):
                       'offset_from': rng.choice([None, 'MODE']),
                       'default': rng.choice([None, ['poly', [[5.0, 0], [0.5, 1]]], ['poly', [[2.0, 1]]]])})
         chosen = rng.sample(extra, rng.randint(1, 4))
+        if time_case is not None:
+            # systematic: every combination of (absolute, epoch, offset_from, scale/offset calibrator)
+            a_, ep_, of_, cal_ = time_case
+            chosen = [{'name': 'X_TIME_T', 'kind': 'time', 'w': 32, 'absolute': a_, 'unit': 's', 'epoch': ep_,
+                       'offset_from': of_, 'default': cal_}]
         tail = {'name': 'XTAIL', 'entries': [], 'base': None, 'criteria': None, 'abstract': False}
         for t in chosen:
             d['ptypes'].append(t)
@@ -644,6 +666,11 @@ def _gen_roundtrip(rng, tier, variant):
         d = _enrich_rt(rng, gen_definition(rng), objects_only=(how == 'objects+'))
         pk = [gen_packet(rng, d).hex() for _ in range(6)]
         yield {'def': d, 'pkts': pk, 'how': how}
+    import itertools
+    for case in itertools.product([True, False], [None, 'TAI'], [None, 'MODE'],
+                                  [None, ['poly', [[5.0, 0], [0.5, 1]]], ['poly', [[2.0, 1]]]]):
+        d = _enrich_rt(rng, gen_definition(rng), objects_only=True, time_case=case)
+        yield {'def': d, 'pkts': [gen_packet(rng, d).hex() for _ in range(3)], 'how': 'objects+'}
 
 
 def _build_roundtrip(r):
